@@ -502,6 +502,8 @@ struct RunResult {
     capped: bool,
     st: RState,
     units_run: u64,
+    /// conditional branches whose direction was compared with the machine-level model
+    branches_judged: u64,
 }
 
 fn initial_state(case: &Case, l: &Layout, seed: u64, extra: &BTreeMap<String, usize>) -> RState {
@@ -598,7 +600,7 @@ fn run_system(func: &RFunc, resolvable: &BTreeSet<u64>, mut st: RState) -> Resul
     let mut loc = match func.entry_loc(0) {
         Some(l) => l,
         None => {
-            return Ok(RunResult { events, end: "no-entry".into(), capped: false, st, units_run: 0 })
+            return Ok(RunResult { events, end: "no-entry".into(), capped: false, st, units_run: 0, branches_judged: 0 })
         }
     };
     let mut raw = 0;
@@ -606,7 +608,7 @@ fn run_system(func: &RFunc, resolvable: &BTreeSet<u64>, mut st: RState) -> Resul
     loop {
         raw += 1;
         if events.len() >= EVENT_CAP || raw >= RAW_CAP {
-            return Ok(RunResult { events, end: "cap".into(), capped: true, st, units_run: 0 });
+            return Ok(RunResult { events, end: "cap".into(), capped: true, st, units_run: 0, branches_judged: 0 });
         }
         if let Some(e) = event_of(&prog, &loc) {
             events.push(e);
@@ -634,7 +636,7 @@ fn run_system(func: &RFunc, resolvable: &BTreeSet<u64>, mut st: RState) -> Resul
             }
         }
     }
-    Ok(RunResult { events, end, capped: false, st, units_run: 0 })
+    Ok(RunResult { events, end, capped: false, st, units_run: 0, branches_judged: 0 })
 }
 
 struct UnitLift {
@@ -657,6 +659,7 @@ fn run_reference(
     let mut pc = entry_addr(case, l);
     let mut raw = 0;
     let mut units_run = 0;
+    let mut branches_judged = 0u64;
     let end;
     'outer: loop {
         if !unit_fully_mapped(l, pc) {
@@ -681,6 +684,8 @@ fn run_reference(
             }
         };
         units_run += 1;
+        // what the machine does with a conditional branch here, from the state before it
+        let machine = crate::branchoracle::expect(case.arch, &l.units[&pc], pc, &st.scalars);
         let mut branched: Option<u64> = None;
         for g in &lift.graphs {
             let prog = RProgram { funcs: vec![g.clone()] };
@@ -691,7 +696,7 @@ fn run_reference(
             loop {
                 raw += 1;
                 if events.len() >= EVENT_CAP || raw >= RAW_CAP {
-                    return RunResult { events, end: "cap".into(), capped: true, st, units_run };
+                    return RunResult { events, end: "cap".into(), capped: true, st, units_run, branches_judged };
                 }
                 if let Some(e) = event_of(&prog, &loc) {
                     events.push(e);
@@ -765,14 +770,31 @@ fn run_reference(
                 };
                 break;
             }
-            1 => pc = enabled[0],
+            1 => {
+                if let Some(m) = machine.as_ref().filter(|m| m.target != m.fallthrough) {
+                    branches_judged += 1;
+                    if (enabled[0] != m.fallthrough) != m.taken {
+                        end = format!(
+                            "branch-direction:at 0x{:x} the lifted instruction continues at 0x{:x}, the machine ({}) {} the branch to 0x{:x} (next instruction 0x{:x})",
+                            pc,
+                            enabled[0],
+                            m.what,
+                            if m.taken { "takes" } else { "does not take" },
+                            m.target,
+                            m.fallthrough
+                        );
+                        break;
+                    }
+                }
+                pc = enabled[0]
+            }
             _ => {
                 end = "ref-ambiguous".into();
                 break;
             }
         }
     }
-    RunResult { events, end, capped: false, st, units_run }
+    RunResult { events, end, capped: false, st, units_run, branches_judged }
 }
 
 fn sig(case: &Case, extra: &str) -> String {
@@ -1313,12 +1335,18 @@ pub fn execute(case: &Case) -> Outcome {
         let refr = run_reference(case, &l, &resolvable, &mut cache, st0);
         ticks += refr.units_run.max(1);
         c.add("run.native-instructions", refr.units_run);
+        c.add("structure.branch-directions-judged", refr.branches_judged);
         c.add("run.il-instructions", refr.events.len() as u64);
         c.inc(&format!("run.end.{}", refr.end.split(':').next().unwrap_or("?")));
         term_kind = refr.end.split(':').next().unwrap_or("?").to_string();
         if refr.end == "unit-lift-failed" || refr.end == "ref-ambiguous" || refr.end.starts_with("not-a-unit") {
             c.inc("run.unjudged");
             continue;
+        }
+        if let Some(d) = refr.end.strip_prefix("branch-direction:") {
+            // both runs share the lifter, so a wrong branch condition moves both alike: the
+            // direction is judged against a machine-level model of the branch instructions
+            return done(Some(Violation::new("branch-direction", sig(case, ""), format!("{} (state seed {})", d, seed))), c, states, log, ticks, nontrivial);
         }
         if refr.end.starts_with("stuck:no-guard-holds:cond-branch") {
             // both runs share the per-instruction successors, so a conditional branch that
@@ -1393,6 +1421,26 @@ pub fn execute(case: &Case) -> Outcome {
                     format!(
                         "after {} common IL instructions the function run ends ({}) and the reference run ends ({}); {} {:x?} '{}' (state seed {})",
                         m, sys.end, refr.end, who, e.address, e.op, seed
+                    ),
+                )),
+                c,
+                states,
+                log,
+                ticks,
+                true,
+            );
+        }
+        if sys.end == "stuck:no-guard-holds" && !refr.end.starts_with("stuck:no-guard-holds") && case.manual_edges.iter().all(|e| !e.2) {
+            // same trace, but the function stops in a block that has out-edges none of which
+            // is enabled, where the machine code goes on (possibly into unmapped memory, which
+            // an unmodified lift represents by an empty block): the graph lost a way out
+            return done(
+                Some(Violation::new(
+                    "edges-not-exhaustive",
+                    sig(case, ""),
+                    format!(
+                        "after {} common IL instructions the function run stops in a block whose outgoing edges are all disabled; the reference run ends ({}) (state seed {})",
+                        m, refr.end, seed
                     ),
                 )),
                 c,
